@@ -35,6 +35,9 @@ type PubOptions struct {
 	Sources     bool   `json:"sources"`
 	Statistics  bool   `json:"statistics"`
 	Visibility  string `json:"visibility"`
+	// MaxLivingAgeZero: Document.MaxLivingAge is set to 0 ("never dead
+	// without a death event") before publishing.
+	MaxLivingAgeZero bool `json:"max_living_age_zero,omitempty"`
 }
 
 func (o PubOptions) lib() *html.PublishShowOptions {
@@ -185,6 +188,9 @@ func runPublishDoc(t *testing.T, cr *CaseResult, prop string, doc *gedcom.Docume
 	labelDoc(labels, doc, 0)
 	sim.Labels = labels
 	sim.Today = parseToday(today)
+	if opts.MaxLivingAgeZero {
+		doc.MaxLivingAge = 0
+	}
 	disk := &Disk{faults: faults}
 	run := &pubRun{}
 	var perr error
@@ -492,9 +498,9 @@ func hostileGraph(r *rand.Rand, tier string) *Graph {
 	}
 	// hostile pointers on individuals and families too (references follow)
 	rename := map[string]string{}
-	for _, p := range g.People {
+	for pi, p := range g.People {
 		if r.IntN(8) == 0 {
-			np := pick(r, hostilePtr) + fmt.Sprint(r.IntN(3))
+			np := pick(r, hostilePtr) + fmt.Sprint(pi) // (unique: duplicate pointers are C14's subject)
 			rename[p.Ptr] = np
 			p.Ptr = np
 		}
@@ -517,7 +523,16 @@ func hostileGraph(r *rand.Rand, tier string) *Graph {
 			}
 		}
 		if r.IntN(10) == 0 {
-			f.Ptr = pick(r, hostilePtr) + "f"
+			f.Ptr = pick(r, hostilePtr) + "f" + f.Ptr
+		}
+	}
+	// two namesakes and a place called like them plus a number
+	if len(g.People) >= 2 && r.IntN(6) == 0 {
+		a, b := g.People[0], g.People[1]
+		if len(a.Names) > 0 && a.Names[0] != "" {
+			b.Names = append([]string(nil), a.Names...)
+			plain := strings.NewReplacer("/", "").Replace(a.Names[0])
+			b.Events = append(b.Events, Event{Tag: "RESI", Date: "1900", Place: strings.TrimSpace(plain) + " " + fmt.Sprint(1+r.IntN(2))})
 		}
 	}
 	for _, p := range g.People {
